@@ -548,6 +548,42 @@ def r63(ctx, repo):
            "__contains__", node=feats, label="features-from-contains")
 
 
+    # temporary (user-set) features win over everything that is computed or
+    # fetched: on every path the `_usertemp` test precedes the ancillary and
+    # basin look-ups (a temporary feature that overrides a computable one is
+    # otherwise shadowed by the cached value of the latter)
+    from ..normalize import canon as _canon
+    g2 = _canon(repo, CORE, get, keep=("_get_ancillary_feature_data",
+                                       "_get_basin_feature_data"))
+    gcfg = CFG(g2)
+    ut = set()
+    for n_ in gcfg.nodes:
+        if n_.kind == "test" and any(
+                isinstance(c_, ast.Compare) and isinstance(
+                    c_.ops[0], (ast.In, ast.NotIn)) and is_self_attr(
+                    c_.comparators[0], "_usertemp")
+                for c_ in ast.walk(n_.ast.test)):
+            ut.add(n_.id)
+    if not ut:
+        raise AnalysisError("RTDCBase.__getitem__: `_usertemp` test lost")
+    late = None
+    for c_ in [x for x in walk(g2) if isinstance(x, ast.Call) and last_attr(
+            x) in ("_get_ancillary_feature_data",
+                   "_get_basin_feature_data")]:
+        st_ = c_
+        while not isinstance(st_, ast.stmt):
+            st_ = st_.parent
+        for nid in gcfg.ids_of(st_):
+            if not gcfg.always_before(nid, lambda n__: n__.id in ut):
+                late = late or c_
+    ctx.ob("R6.3", late is None,
+           "temporary features are looked up before computed and basin data"
+           if late is None else
+           f"`{short(late, 50)}` can run before the `_usertemp` test: a "
+           f"temporary feature that overrides a computable one is shadowed "
+           f"by cached ancillary data", node=late or get,
+           label="temporary features first")
+
 # ----------------------------------------------------------------------
 # R6.4
 
@@ -693,6 +729,34 @@ def r65(ctx, repo):
            "value of every required configuration key is digested" if hit
            else "required configuration values are not digested",
            node=hit or func, label="ingredient req_config")
+    # ... unmodified: a case fold / strip / truncation of the text that
+    # carries the value makes different settings share a hash
+    if hit is not None:
+        LOSSY = {"lower", "upper", "casefold", "title", "capitalize",
+                 "swapcase", "strip", "lstrip", "rstrip", "split",
+                 "partition", "rpartition", "replace", "translate"}
+        src_ = expand_locals(func, hit.args[0]) if hit.args else ""
+        try:
+            tree_ = ast.parse(src_, mode="eval")
+        except SyntaxError:
+            raise AnalysisError("AncillaryFeature.hash: digested config "
+                                "expression cannot be parsed")
+        lossy = None
+        for n_ in ast.walk(tree_):
+            if isinstance(n_, ast.Call) and isinstance(
+                    n_.func, ast.Attribute) and n_.func.attr in LOSSY \
+                    and ".config" in txt(n_.func.value):
+                lossy = n_.func.attr
+            if isinstance(n_, ast.Subscript) and isinstance(
+                    n_.slice, ast.Slice) and ".config" in txt(n_.value):
+                lossy = "a slice"
+        ctx.ob("R6.5", lossy is None,
+               "configuration values enter the digest unmodified"
+               if lossy is None else
+               f"the text carrying the configuration value passes through "
+               f"`{lossy}` before it is digested: values that differ only "
+               f"in what that discards share a hash", node=hit,
+               label="req_config digested unmodified")
     # req_func
     hit = update_arg_mentions(
         func, lambda x: isinstance(x, ast.Call) and is_self_attr(
@@ -847,6 +911,65 @@ def r66(ctx, repo):
 
 
 # ----------------------------------------------------------------------
+# R6.8
+
+def r68(ctx, repo):
+    """Availability is decided afresh on every call.
+
+    `_get_ancillary_feature_data` uses a cached array only when the feature is
+    *currently* available (R6.2); that is only as good as
+    `AncillaryFeature.available_features` / `is_available` themselves: a
+    result remembered from an earlier call (on the dataset, the class or a
+    memoising decorator) goes stale when a setting is removed or a temporary
+    feature disappears.  Decided on the CFG: every normal path to a return
+    passes the scan of the registered recipes (`is_available` of each); and
+    neither function is wrapped by a memoising decorator."""
+    rel = FA + "ancillary_feature.py"
+    av = inline_helpers(repo, rel, repo.func(
+        rel, "AncillaryFeature.available_features"))
+    MEMO = ("lru_cache", "cache", "cached_property", "Cache", "memoize")
+    for q in ("AncillaryFeature.available_features",
+              "AncillaryFeature.is_available", "AncillaryFeature.hash"):
+        f = repo.func(rel, q)
+        bad = [txt(d) for d in f.decorator_list
+               if any(m in txt(d) for m in MEMO)]
+        ctx.ob("R6.8", not bad, f"{q} is evaluated on every call" if not bad
+               else f"{q} is wrapped by `{bad[0]}`: its result does not "
+               f"follow later changes of settings or data", node=f,
+               key=f"{rel}::{q}::not memoised")
+    cfg = CFG(av)
+    scans = []
+    for n in walk(av):
+        if isinstance(n, (ast.For, ast.ListComp, ast.DictComp, ast.SetComp,
+                          ast.GeneratorExp)):
+            its = [n.iter] if isinstance(n, ast.For) else [
+                g.iter for g in n.generators]
+            if any("features" in txt(i) and "AncillaryFeature" in txt(i)
+                   or txt(i) in ("cls.features", "AncillaryFeature.features")
+                   for i in its) and any(
+                    isinstance(c, ast.Call) and last_attr(c) == "is_available"
+                    for c in ast.walk(n)):
+                st = n
+                while not isinstance(st, ast.stmt):
+                    st = st.parent
+                scans.append(st)
+    if not scans:
+        raise AnalysisError("available_features: scan of the registered "
+                            "recipes not recognised")
+    ids = set()
+    for st in scans:
+        ids |= set(cfg.ids_of(st))
+    ok = cfg.must_pass(lambda n_: n_.id in ids,
+                       avoid_edge=lambda s_, l_, d_: l_ == "x")
+    ctx.ob("R6.8", ok, "every call scans the registered recipes for "
+           "availability" if ok else
+           "available_features can return without scanning the recipes (a "
+           "remembered result): removing a setting or a temporary feature "
+           "leaves features 'available' that can no longer be computed",
+           node=scans[0], label="availability recomputed on every call")
+
+
+# ----------------------------------------------------------------------
 # R6.7
 
 LUT_LOAD = "dclab/features/emodulus/load.py"
@@ -963,6 +1086,8 @@ def run(ctx):
              "covers the container kinds", minimum=8)
     ctx.rule("R6.6", "plugin dependency lists passed on unchanged; "
              "temporary features read-only and refresh children", minimum=6)
+    ctx.rule("R6.8", "availability of recipes is decided afresh on every "
+             "call (no memo, no short-cut return)", minimum=4)
     ctx.rule("R6.7", "the registry of external look-up tables is write-once "
              "(recipe hashes contain the LUT identifier only)", minimum=2)
     instances = fold_registry(repo)
@@ -981,6 +1106,7 @@ def run(ctx):
     r65(ctx, repo)
     r66(ctx, repo)
     r67(ctx, repo)
+    r68(ctx, repo)
 
 
 def crossval(ctx):
@@ -1025,6 +1151,27 @@ def _drop(s, what):
 
 
 MUTANTS = [
+    ("temporary features looked up after cached ancillaries (seeded C06_12)",
+     CORE,
+     [("        elif feat in self._usertemp:\n"
+       "            return self._usertemp[feat]\n", ""),
+      ("        if data is not None:\n            return data\n"
+       "        # 2. Check for h5dataset-based",
+       "        if data is not None:\n            return data\n"
+       "        if feat in self._usertemp:\n"
+       "            return self._usertemp[feat]\n"
+       "        # 2. Check for h5dataset-based")], "R6.3"),
+    ("config text lower-cased before hashing (seeded C05_11)",
+     FA + "ancillary_feature.py",
+     ('                data = "{}:{}={}".format(sec, key, val)\n',
+      '                data = "{}:{}={}".format(sec, key, val).lower()\n'),
+     "R6.5"),
+    ("availability memoised on a revision counter (seeded C06_10)",
+     FA + "ancillary_feature.py",
+     ("        # TODO: This is quite slow.\n        cols = {}\n",
+      "        memo = getattr(rtdc_ds, '_anc_avail', None)\n"
+      "        if memo is not None and memo[0] == len(rtdc_ds._usertemp):\n"
+      "            return memo[1]\n        cols = {}\n"), "R6.8"),
     ("large arrays digested by head and tail only (seeded C04_8)",
      "dclab/util.py",
      ("    elif isinstance(obj, np.ndarray):\n        return obj.tobytes()\n",
